@@ -30,7 +30,8 @@ REQUIRE = {'quick': {'must_reject_rejected': 500, 'accepted_compared': 300, 'com
 
 FORMS = ['seq', 'conc', 'next', 'var', 'value', 'push', 'pushattr', 'slice', 'elem', 'varinit', 'siginit',
          'port_in', 'port_out', 'ifexp', 'retmerge', 'ifexp_full', 'ifexp_null', 'full_ifexp', 'retmerge_full',
-         'viewtgt_a', 'viewtgt_b', 'viewtgt_conc']
+         'viewtgt_a', 'viewtgt_b', 'viewtgt_conc', 'arrinit_var', 'arrinit_sig', 'arrelem', 'arrelem_conc',
+         'siginit_delayed', 'varinit_attr', 'siginit_attr']
 QUALS = ['port', 'signal', 'variable', 'temp', 'const']
 LITS = [('int', -5), ('int', -1), ('int', 0), ('int', 1), ('int', 3), ('int', 7), ('int', 8), ('int', 16),
         ('null', None), ('full', None), ('pybool', True), ('pybool', False), ('str', '101'), ('str', '01'), ('str', '1')]
@@ -181,10 +182,21 @@ def build(case):
     elif f == 'siginit':
         seq.append(f"si = Signal[{T}]({SRC})")
         seq.append("self.o <<= si")
+    elif f == 'siginit_delayed':
+        # (delayed_init: the initial assignment is a signal assignment that becomes visible one clock later)
+        seq.append(f"sd = Signal[{T}]({SRC}, delayed_init=True)")
+        seq.append("self.o <<= sd")
+    elif f in ('varinit_attr', 'siginit_attr'):
+        # local declarations with further constructor options
+        if f == 'varinit_attr':
+            seq.append(f"vi = Variable[{T}]({SRC}, name='vi_named')")
+        else:
+            seq.append(f"vi = Signal[{T}]({SRC}, name='si_named', maybe_uninitialized=True)")
+        seq.append("self.o <<= vi")
     elif f == 'port_in':
         if q in ('variable', 'temp') or st[0] == 'bool':
             return None      # entity instantiation happens in architecture(), outside any traced context
-        pre.insert(0, f"        Leaf{cname}(x={SRC}, y=self.o)")
+        pre.append(f"        Leaf{cname}(x={SRC}, y=self.o)")       # (after the definition of a source signal)
         info['leaf'] = (T, T)
     elif f == 'port_out':
         if q not in ('port', 'signal') or st[0] in ('bool',):
@@ -220,6 +232,26 @@ def build(case):
             conc.append(f"self.o.{view} <<= {SRC}")
         else:
             seq.append(f"self.o.{view} <<= {SRC}")
+    elif f in ('arrinit_var', 'arrinit_sig'):
+        # element-wise initialisation of a local Array object from a list of run-time values
+        if tt[0] not in ('bv', 'u', 's'):
+            return None
+        Q = 'Variable' if f == 'arrinit_var' else 'Signal'
+        from vlib.exprgen import lit_src as _lit
+        seq.append(f"ar = {Q}[Array[{T}, 2]]([{_lit(tt[0], tt[1], 0)}, {SRC}])")
+        seq.append("self.o <<= ar[1]")
+    elif f in ('arrelem', 'arrelem_conc'):
+        # an element of an Array signal as assignment target
+        if tt[0] not in ('bv', 'u', 's'):
+            return None
+        if f == 'arrelem_conc' and seq_only_src:
+            return None
+        pre.append(f"        arr = Signal[Array[{T}, 2]](name='arr')")
+        (conc if f == 'arrelem_conc' else seq).append(f"arr[1] <<= {SRC}")
+        pre.append("        @std.concurrent")
+        pre.append("        def arr_out():")
+        pre.append("            self.o <<= arr[1]")
+        O = f"    o = Port.output({T})"
     elif f == 'ifexp':
         ports.append(f"    b = Port.input({T})")
         info['b_type'] = tt
